@@ -225,7 +225,10 @@ def get_cauchy_point(
             nseg, f_prime, f_second, delta_t, delta_t_min, iprint, logger
         )
 
-        if delta_t_min < delta_t:
+        # A zero-length segment (tied breakpoints) cannot contain the minimiser: f' then
+        # still accounts for the motion of variables that reach their bound at this
+        # very t, and its sign says nothing about the path beyond it.
+        if delta_t_min < delta_t and delta_t > 0:
             is_gpc_found = True
             break
 
